@@ -133,6 +133,8 @@ Canonical(base, c, n, flag) ==
      noteN |-> IF NoteDue(base, c, flag) THEN Eff(n) ELSE 0,
      noteP |-> IF NoteDue(base, c, flag) THEN Percent(c) ELSE 0,
      notePexact |-> TRUE]
+\* the lines the procedure writes to the grader's debug log: the attempt that counts, then the credit unless it is 1
+ExpectedLog(c, n) == <<<<"attempt", Eff(n)>>>> \o (IF c = Unit THEN <<>> ELSE <<<<"max", c>>>>)
 Unchanged(base) == Canonical(base, Unit, 1, FALSE)
 Grades8(obs) == [i \in DOMAIN obs.entries |-> obs.entries[i].g8]
 RECURSIVE SumInts(_)
